@@ -18,7 +18,7 @@ import subprocess
 import sys
 import time
 
-PER_INPUT_BUDGET = 0.5      # seconds: polynomial behaviour on <= 4 KiB is far below
+PER_INPUT_BUDGET = 0.5      # CPU seconds (thread time): polynomial behaviour on <= 4 KiB is far below
 SIZES = (26, 30, 34, 200, 4000)
 
 
@@ -83,15 +83,25 @@ def _head(wire):
         pass   # escapes are reported by the other searches
 
 
-def child():
-    for site, data in _cases():
-        t0 = time.perf_counter()
+def _cpu(site, data):
+    """CPU seconds (of this thread: not wall time, so that a loaded machine does
+    not produce a verdict) the real call site takes on data"""
+    t0 = time.thread_time()
+    _run_site(site, data)
+    return time.thread_time() - t0
+
+
+def child(only=None):
+    cases = _cases() if only is None else [only]
+    for site, data in cases:
         print(json.dumps({"start": [site, data.hex()]}), flush=True)
-        _run_site(site, data)
-        dt = time.perf_counter() - t0
+        dt = _cpu(site, data)
+        if dt > PER_INPUT_BUDGET:
+            # confirm: the minimum of three more measurements must exceed the budget too
+            dt = min([dt] + [_cpu(site, data) for _ in range(3)])
         if dt > PER_INPUT_BUDGET:
             print(json.dumps({"slow": [site, data.hex(), round(dt, 3)]}), flush=True)
-    print(json.dumps({"done": len(_cases())}), flush=True)
+    print(json.dumps({"done": len(cases)}), flush=True)
 
 
 def search(total_timeout=90):
@@ -125,9 +135,35 @@ def search(total_timeout=90):
         elif "done" in d:
             last = None
     if hung:
-        hung = last
+        # the whole sweep ran out of wall time (a loaded machine, or a genuinely
+        # hanging input): decide on the case that was running, alone, with a
+        # generous wall limit; it is a hang only if that single input does not
+        # return (a slow return is classified by its CPU time as above)
+        hung = None
+        if last is not None:
+            try:
+                p = subprocess.run([sys.executable, "-m", "harness.hang_search", last[0], last[1]],
+                                   stdout=subprocess.PIPE, stderr=subprocess.PIPE, timeout=60, text=True, env=env,
+                                   cwd=os.path.dirname(os.path.dirname(os.path.abspath(__file__))))
+                for l in p.stdout.splitlines():
+                    try:
+                        d = json.loads(l)
+                    except ValueError:
+                        continue
+                    if "slow" in d:
+                        slow.append(d["slow"])
+            except subprocess.TimeoutExpired:
+                hung = last
+            if hung is None and not slow:
+                # the interrupted sweep is resumed once with a much larger limit
+                if total_timeout < 1200:
+                    return search(total_timeout=1800)
+                hung = last
     return n, slow, hung
 
 
 if __name__ == "__main__":
-    child()
+    if len(sys.argv) == 3:
+        child((sys.argv[1], bytes.fromhex(sys.argv[2])))
+    else:
+        child()
